@@ -32,6 +32,10 @@ KNOWN = [
     (606, r"^generic\.(Node\..*|PathNode\.Load|Value\.GetByPath)$", {"overread", "panic"}, "xtrunc", r"fault addr=guard|index out of range|slice bounds out of range"),
     # same accessors reached through a descriptor whose element type differs from the (substituted) type byte on the wire
     (606, r"^generic\.Value\.GetByPath$", {"overread", "panic"}, "class:type", r"fault addr=guard|index out of range|slice bounds out of range"),
+    (606, r"^generic\.Value\.GetByPath$", {"overread", "panic"}, "class:flip", r"fault addr=guard|index out of range|slice bounds out of range"),
+    # (descriptor-driven read of bytes whose type byte was substituted: scalar bytes are taken for a container header -> finding 601)
+    (601, r"^generic\.Value\.GetByPath$", {"alloc", "oom", "hang"}, "class:type", None),
+    (601, r"^generic\.Value\.GetByPath$", {"alloc", "oom", "hang"}, "class:flip", None),
     # thrift/generic marshalTo dereferences a nil descriptor when wire type and descriptor disagree / input is cut
     (607, r"^generic\.Value\.MarshalTo$", {"panic"}, None, r"nil pointer dereference"),
     # native j2t reads past the end of a text that ends inside a number / literal
@@ -42,6 +46,10 @@ KNOWN = [
     (609, r"^j2p$", {"panic", "overread", "segv"}, "xjsonstr", r"invalid memory address|fault"),
     # (nil descriptor in the visitor callbacks: also on VALID JSON whose map value message itself holds a map, decode.go:503)
     (609, r"^j2p$", {"panic"}, None, r"nil pointer dereference"),
+    # (inconsistent visitor stack on malformed JSON: FinishSpeculativeLength(pos=-1) from onValueEnd, decode.go:617)
+    (609, r"^j2p$", {"panic"}, "class:flip", r"slice bounds out of range \[:-1\]"),
+    (609, r"^j2p$", {"panic"}, "class:trunc", r"slice bounds out of range \[:-1\]"),
+    (609, r"^j2p$", {"panic"}, "class:special", r"slice bounds out of range \[:-1\]"),
     # proto/generic marshalTo allocates a buffer per nesting level (quadratic in depth)
     (610, r"^pgeneric\.Value\.MarshalTo$", {"alloc"}, "xdeep", None),
 ]
@@ -111,12 +119,13 @@ def run_range(ctx, seed, tier, lo, hi, tag, timeout_ms, log):
     results, failures, skipped = {}, [], {}
     cur = lo
     attempt = 0
+    unknown_deaths = 0
     while cur < hi:
         attempt += 1
         outp = os.path.join(rd, "c06-%s-%d.out" % (tag, attempt))
         if os.path.exists(outp):
             os.remove(outp)
-        rc, o, dt = child(ctx, seed, tier, {"C06_FROM": str(cur), "C06_TO": str(hi), "C06_TIMEOUT_MS": str(timeout_ms), "C06_LO": str(lo)}, outp, 3600)
+        rc, o, dt = child(ctx, seed, tier, {"C06_FROM": str(cur), "C06_TO": str(hi), "C06_TIMEOUT_MS": str(timeout_ms), "C06_LO": str(lo), "C06_XBUDGET": "1" if tier == "quick" else "4"}, outp, 3600)
         njobs, res, desc, hang, skp, last_s, ended = parse(outp)
         results.update(res)
         skipped.update(skp)
@@ -143,6 +152,13 @@ def run_range(ctx, seed, tier, lo, hi, tag, timeout_ms, log):
         log.append("child rc=%s inside job %d (%s) after %.1fs" % (rc, last_s, kind, dt))
         f = confirm(ctx, seed, tier, last_s, tag, max(timeout_ms, 2000), o)
         failures.append(f)
+        if f["kind"] != "flaky" and classify(f["ep"], f["kind"], f["flags"], f["detail"], f.get("class")) is None:
+            unknown_deaths += 1
+            if unknown_deaths >= 8:
+                # the tree is badly broken: every further death costs seconds and adds nothing to the verdict
+                log.append("range %s: stopped at job %d after %d unclassified process deaths" % (tag, last_s, unknown_deaths))
+                failures.append({"idx": last_s, "ep": "harness", "class": "-", "kind": "stopped", "flags": "", "detail": "", "input": "", "param": 0})
+                break
         cur = last_s + 1
     return results, failures, skipped
 
@@ -247,10 +263,14 @@ def run(ctx):
     violations, known = [], {}
     infra = None
     seen_v = {}
+    stopped = False
     not_alone = {}
     for f in sorted(failures, key=lambda f: (f["ep"] or "", f["kind"], f.get("len", 0), f["idx"])):
         if f["kind"] == "infra":
             infra = f["detail"]
+            continue
+        if f["kind"] == "stopped":
+            stopped = True
             continue
         if f["kind"] == "flaky":
             log.append("job %d (%s) died once but not when re-run alone: not counted" % (f["idx"], f["ep"]))
@@ -290,7 +310,7 @@ def run(ctx):
           "guard_page": "input copied flush against a PROT_NONE page (mmap+mprotect), cap == len", "vmem_limit_kb": VMEM_KB, "watchdog_ms": timeout_ms,
           "alloc_bound": "TotalAlloc delta <= 2048*len + 1 MiB", "by_entry_point": by_ep, "failures": total_fail,
           "known": {str(k): {"count": v["count"], "by": v["eps"], "smallest": v["min"]} for k, v in known.items()}, "log": log[:40]}
-    if len(results) + len(skipped) + total_fail < njobs and not infra:
+    if len(results) + len(skipped) + total_fail < njobs and not infra and not stopped:
         missing = njobs - len(results) - len(skipped)
         crashed = len([f for f in failures if f["kind"] in ("hang", "oom", "crash", "segv", "stackoverflow")])
         if missing > crashed:
